@@ -49,6 +49,12 @@ impl ParseData for FromAttributesOptions {
     }
 
     fn parse_field(&mut self, field: &syn::Field) -> Result<()> {
+        // A list of attributes has no identifier to hand over: a field named `ident` is an
+        // ordinary field here, not the magic one of the other element-level traits.
+        if field.ident.as_ref().map_or(false, |ident| ident == "ident") {
+            return self.base.container.parse_field(field);
+        }
+
         self.base.parse_field(field)
     }
 
